@@ -106,7 +106,7 @@ class Ctx:
                     near.append((e, "comparison is not constant-time"))
                     continue
                 if every_iteration:
-                    if g.covers_every_iteration(e):
+                    if g.covers_every_iteration(e, bypass):
                         cands.append(e)
                     else:
                         near.append((e, "check is not on every iteration of its loop"))
